@@ -227,9 +227,9 @@ func Execute(t *testing.T, h Harness, plan *Plan) *Result {
 			ctx := &RunCtx{Sim: sim, Plan: plan, Dir: dir, Res: res}
 			mainDone := false
 			sim.SpawnIn(0, "main", func() {
+				defer func() { sim.Stop = true }() // also when the harness panics: the run is over, not spinning to the step limit
 				h.Run(ctx)
 				mainDone = true
-				sim.Stop = true
 			})
 			end := sim.Run()
 			res.End = end
